@@ -205,6 +205,14 @@ def stepNsec (st : State) (w : List String) : State × String :=
     match parseName sg, parseName q, t.toNat?, c.toNat? with
     | some sg, some q, some t, some c => (st, aggStr (evaluateAggressiveNSEC q t c sg st.set))
     | _, _, _, _ => (st, "bad-op")
+  | ["z", "authu", sg, q, t, rc, v] =>
+    match parseName sg, parseName q, t.toNat? with
+    | some sg, some q, some t =>
+      let clsOK := st.set.all fun r => !nameInZone r.owner sg || r.cls == 1
+      (st, authStr (fun _ => none) { signer := sg, q := q, t := t, nx := (rc == "nx"), reqCD := false, haveDS := true,
+                                     signed := false, sigsGood := false, nsec := [], nsec3 := [],
+                                     dsSigsGood := (v == "good" && clsOK), dsNsec := st.set })
+    | _, _, _ => (st, "bad-op")
   | ["z", "auth", sg, q, t, rc, v] =>
     match parseName sg, parseName q, t.toNat? with
     | some sg, some q, some t =>
@@ -213,7 +221,7 @@ def stepNsec (st : State) (w : List String) : State × String :=
       (st, authStr (fun _ => none) { signer := sg, q := q, t := t, nx := (rc == "nx"), reqCD := (v == "cd"),
                                      haveDS := (!(v == "insec" || v == "insecnosig") || sg == []),
                                      signed := (v != "nosig" && v != "insecnosig"),
-                                     sigsGood := ((v == "good" || v == "cd" || v == "insec") && clsOK), nsec := st.set, nsec3 := [] })
+                                     sigsGood := ((v == "good" || v == "cd" || v == "insec" || v == "extrasig") && clsOK), nsec := st.set, nsec3 := [] })
     | _, _, _ => (st, "bad-op")
   | _ => (st, "bad-op")
 
@@ -307,6 +315,14 @@ def stepNsec3 (st : State) (w : List String) : State × String :=
     | some sg, some gs, some ht =>
       (st, secStr (verifyWildcardNSEC3 (htFn ht) (st.h.set.filter fun r => nameInZone r.owner sg) sg gs))
     | _, _, _ => (st, "bad-op")
+  | ["h", "authu", sg, q, t, rc, v, ht] =>
+    match parseName sg, parseName q, t.toNat?, parseHT ht with
+    | some sg, some q, some t, some ht =>
+      let clsOK := st.h.set.all fun r => !nameInZone r.owner sg || r.cls == 1
+      (st, authStr (htFn ht) { signer := sg, q := q, t := t, nx := (rc == "nx"), reqCD := false, haveDS := true,
+                               signed := false, sigsGood := false, nsec := [], nsec3 := [],
+                               dsSigsGood := (v == "good" && clsOK), dsNsec3 := st.h.set })
+    | _, _, _, _ => (st, "bad-op")
   | ["h", "auth", sg, q, t, rc, v, ht] =>
     match parseName sg, parseName q, t.toNat?, parseHT ht with
     | some sg, some q, some t, some ht =>
@@ -314,7 +330,7 @@ def stepNsec3 (st : State) (w : List String) : State × String :=
       (st, authStr (htFn ht) { signer := sg, q := q, t := t, nx := (rc == "nx"), reqCD := (v == "cd"),
                                haveDS := (!(v == "insec" || v == "insecnosig") || sg == []),
                                signed := (v != "nosig" && v != "insecnosig"),
-                               sigsGood := ((v == "good" || v == "cd" || v == "insec") && clsOK), nsec := [], nsec3 := st.h.set })
+                               sigsGood := ((v == "good" || v == "cd" || v == "insec" || v == "extrasig") && clsOK), nsec := [], nsec3 := st.h.set })
     | _, _, _, _ => (st, "bad-op")
   | ["h", "agg", sg, q, t, c, ht] =>
     match parseName sg, parseName q, t.toNat?, c.toNat?, parseHT ht with
